@@ -132,6 +132,10 @@ struct Family {
 	// Extra detail appended to a known-finding signature (computed on the minimised plan).
 	virtual std::string signatureDetail(const Plan&, const Violation&) { return ""; }
 };
+// Index of the run being generated (set by the kernel before Family::generate): lets a family
+// enumerate a finite case list exhaustively across the index range instead of sampling it.
+extern uint64_t g_genIndex;
+
 void registerFamily(Family* f);
 Family* findFamily(const std::string& name);
 std::vector<Family*>& allFamilies();
